@@ -36,7 +36,24 @@ func (e *Error) updateFromTokenIfNeeded(template *Template, t *Token) *Error {
 		c.Template = template
 	}
 
-	if t == nil || c.Token != nil || c.Line > 0 {
+	if t == nil {
+		return &c
+	}
+	if c.Token != nil || c.Line > 0 {
+		// it has a position of its own; if it names no source, that position lies in the
+		// source of its own token, else in the one t stands in
+		if c.Filename == "" {
+			if c.Token != nil {
+				c.Filename = c.Token.Filename
+			} else {
+				c.Filename = t.Filename
+			}
+		}
+		return &c
+	}
+	if c.Filename != "" && c.Filename != t.Filename {
+		// it names another source (a template that could not be loaded): the position of t
+		// would be a line of THIS source under the other one's name
 		return &c
 	}
 
